@@ -19,6 +19,22 @@ pub(super) fn snake_case_to_pascal_case(input: &str) -> String {
         .collect()
 }
 
+/// The `serde` attributes a method argument needs as a field of the parameters struct: its wire
+/// name if it was renamed, and `None` values are not sent.
+pub(super) fn param_field_serde_attrs(
+    info: &super::types::ArgInfo<'_>,
+) -> proc_macro2::TokenStream {
+    let rename = info
+        .serialized_name
+        .as_ref()
+        .map(|renamed| quote::quote! { #[serde(rename = #renamed)] });
+    let skip = info
+        .is_optional
+        .then(|| quote::quote! { #[serde(skip_serializing_if = "Option::is_none")] });
+
+    quote::quote! { #rename #skip }
+}
+
 /// Convert any lifetime references to use our single '__proxy_params lifetime.
 pub(super) fn convert_to_single_lifetime(ty: &Type) -> Type {
     convert_type_lifetimes(ty, "'__proxy_params")
